@@ -23,7 +23,26 @@ property_info(
 
 
 def _flag_tests(g, flag: str):
-    return [t for t in g.nodes if t.kind == "test" and unparse(t.ast).endswith(f"config.{flag}")]
+    """Atomic tests on <...>config.<flag> - read directly or through an alias temporary (`strict = self.config.fail_on_...`)."""
+    from ..model import FuncInfo
+    from ..q import polar_forms
+
+    pfi = FuncInfo(qual="", module=None, cls=None, node=g.fn, name="")  # type: ignore[arg-type]
+    return [t for t in g.nodes if t.kind == "test" and t.ast is not None and any(same and f.endswith(f"config.{flag}") for f, same in polar_forms(pfi, t, t.ast, anon=False))]
+
+
+def _msg(fi, r) -> str:
+    """Literal text of the message a raise statement builds (f-string / format / % / + templates, through temporaries)."""
+    from ..q import str_template, template_text
+
+    exc = r.ast.exc
+    out = [unparse(exc)]
+    if isinstance(exc, ast.Call):
+        for a in exc.args:
+            for leaf in leaves_at(fi, r, a):
+                t = str_template(leaf)
+                out.append(template_text(t) if t is not None else unparse(leaf))
+    return " ".join(out)
 
 
 def _raises(g, exc: str = "ParserError"):
@@ -37,7 +56,7 @@ def flag_governed_failure(ctx: Ctx) -> None:
     fi = ctx.repo.func(f"{PAR}.nodes.element:ElementNode.child")
     g = build_cfg(fi.node)
     tests = _flag_tests(g, "fail_on_unknown_properties")
-    raises = [r for r in _raises(g) if "Unknown property" in unparse(r.ast)]
+    raises = [r for r in _raises(g) if "Unknown property" in _msg(fi, r)]
     ok = len(tests) == 1 and len(raises) == 1 and g.only_if(raises[0].id, tests[0].id, True)
     ctx.ob("ElementNode.child: 'Unknown property' raised only if fail_on_unknown_properties", ok, at=fi, construct="unknown property raise", msg="raise not governed by the flag being true")
     skips = [n for n in g.returns() if isinstance(n.ast.value, ast.Call) and unparse(n.ast.value.func).endswith("SkipNode")]
@@ -52,7 +71,7 @@ def flag_governed_failure(ctx: Ctx) -> None:
     fi = ctx.repo.func(f"{PAR}.dict:DictDecoder.bind_dataclass")
     g = build_cfg(fi.node)
     tests = _flag_tests(g, "fail_on_unknown_properties")
-    raises = [r for r in _raises(g) if "Unknown property" in unparse(r.ast)]
+    raises = [r for r in _raises(g) if "Unknown property" in _msg(fi, r)]
     ok = len(tests) == 1 and len(raises) == 1 and g.only_if(raises[0].id, tests[0].id, True) and none_cond(control_deps(fi, raises[0]))
     ctx.ob("DictDecoder.bind_dataclass: 'Unknown property' raised only if the key matched no field and fail_on_unknown_properties", ok, at=fi, construct="unknown key raise", msg="raise not governed by the flag")
     binds = [n for n in g.stmts() if any(call_name_of(c) == "bind_value" for c in node_calls(n))]
@@ -63,7 +82,7 @@ def flag_governed_failure(ctx: Ctx) -> None:
     fi = ctx.repo.func(f"{PAR}.nodes.element:ElementNode.bind_attrs")
     g = build_cfg(fi.node)
     tests = _flag_tests(g, "fail_on_unknown_attributes")
-    raises = [r for r in _raises(g) if "Unknown attribute" in unparse(r.ast)]
+    raises = [r for r in _raises(g) if "Unknown attribute" in _msg(fi, r)]
     ok = len(tests) == 1 and len(raises) == 1 and g.only_if(raises[0].id, tests[0].id, True)
     ctx.ob("ElementNode.bind_attrs: 'Unknown attribute' raised only if fail_on_unknown_attributes", ok, at=fi, construct="unknown attribute raise", msg="raise not governed by the flag")
     ok2 = bool(tests) and all(g.nodes[m].kind in ("for", "exit") or not isinstance(g.nodes[m].ast, ast.Raise) for m, lab in g.succ[tests[0].id] if lab == "false")
@@ -99,16 +118,16 @@ def xsi_exemption(ctx: Ctx) -> None:
     """The unknown-attribute failure is additionally control-dependent on the attribute not being in the XSI namespace."""
     fi = ctx.repo.func(f"{PAR}.nodes.element:ElementNode.bind_attrs")
     g = build_cfg(fi.node)
-    raises = [r for r in _raises(g) if "Unknown attribute" in unparse(r.ast)]
+    raises = [r for r in _raises(g) if "Unknown attribute" in _msg(fi, r)]
     tests = [t for t in g.nodes if t.kind == "test" and isinstance(t.ast, ast.Compare) and len(t.ast.ops) == 1 and isinstance(t.ast.ops[0], (ast.NotEq, ast.Eq))
              and any("target_uri(" in f for f in raw_forms(fi, t, t.ast)) and "Namespace.XSI.uri" in unparse(t.ast)]
     ok = len(raises) == 1 and len(tests) >= 1 and any(g.only_if(raises[0].id, t.id, isinstance(t.ast.ops[0], ast.NotEq)) for t in tests)
     ctx.ob("bind_attrs: unknown-attribute failure requires target_uri(qname) != Namespace.XSI.uri", ok, at=fi, construct="xsi exemption", msg="xsi:* attributes fail under fail_on_unknown_attributes")
     if tests:
         arg = tests[0].ast.left.args[0] if isinstance(tests[0].ast.left, ast.Call) and tests[0].ast.left.args else None
-        loop = [n for n in g.nodes if n.kind == "for" and "self.attrs.items()" in unparse(n.ast.iter)]
+        loop = [n for n in g.nodes if n.kind == "for" and any("self.attrs.items()" in t for t in value_texts(fi, n, n.ast.iter))]
         key = unparse(loop[0].ast.target.elts[0]) if loop and isinstance(loop[0].ast.target, ast.Tuple) else None
-        ctx.ob("bind_attrs: the exemption tests the attribute's own qualified name", arg is not None and unparse(arg) == key, at=fi, construct="xsi exemption subject", msg="exemption tests another name")
+        ctx.ob("bind_attrs: the exemption tests the attribute's own qualified name", arg is not None and key is not None and key in value_texts(fi, tests[0], arg), at=fi, construct="xsi exemption subject", msg="exemption tests another name")
 
 
 @rule("C10.R3")
